@@ -302,6 +302,8 @@ def c02(res, tier, rng, wd):
 def c05(res, tier, rng, wd):
     thorough = tier == "thorough"
     design_readbuf(res, "C05", thorough)
+    # unbounded: for every header size and maximum body length the indices stay in bounds and no read is issued with zero free space
+    vf.proof_run(res, "ReadBufProof (TLAPS: buffer indices and no zero-space read for every capacity)", "ReadBufProof.tla")
     scs = e1.gen_c05(rng, 0, thorough)
     run_e1(res, "C05", scs, wd, "c05")
     run_e2(res, "C05", e2.gen_c05_client(rng, thorough), wd, "c05client")
